@@ -807,6 +807,121 @@ Proof.
   intros H. apply (G ts [] s I); auto.
 Qed.
 
+(* ... and so does a failed copy_io / replace_child (their undo logs as written) *)
+Section CopyIO.
+Variable W : world.
+
+Lemma undo_pairs_Inv ps s : Inv W s -> Inv W (undo_pairs s ps).
+Proof. apply (undo_pairs_P (Inv W)). intros s0 a0 b0. apply disc1_Inv. Qed.
+
+Lemma undo_pairs_sub ps s x y : Inv W s -> In y (conns (undo_pairs s ps) x) -> In y (conns s x).
+Proof.
+  unfold undo_pairs. revert s; induction ps as [|p r IH]; intros s I; cbn [fold_left]; auto.
+  intros H. apply IH in H; [|now apply disconnect_Inv]. now apply (disconnect_sub W) in H.
+Qed.
+
+Lemma undo_pairs_removes ps s a b : Inv W s -> In (a, b) ps -> ~ In b (conns (undo_pairs s ps) a).
+Proof.
+  unfold undo_pairs. revert s; induction ps as [|p r IH]; intros s I Hp; cbn [fold_left]; [contradiction|].
+  assert (I1 : Inv W (fst (disconnect s (fst p) [snd p]))) by now apply disconnect_Inv.
+  destruct Hp as [->|Hp]; [|now apply IH].
+  intros H. apply (undo_pairs_sub r _ a b I1) in H. cbn [fst snd] in H.
+  apply (disconnect_removes W s a [b] b I); auto. now left.
+Qed.
+
+(* what the log [new] promises about a store reached from [s] *)
+Definition logged (s s0 : cstore) (new : list (nat * nat)) : Prop :=
+  forall c x, In x (conns s0 c) -> In x (conns s c) \/ In (c, x) new \/ In (x, c) new.
+
+Lemma logged_more s s0 new more : logged s s0 new -> logged s s0 (new ++ more).
+Proof.
+  intros H c x Hx. destruct (H c x Hx) as [?|[?|?]]; auto; right; [left|right]; apply in_or_app; auto.
+Qed.
+
+Lemma undo_logged s s0 new : Inv W s0 -> logged s s0 new ->
+  forall c x, In x (conns (undo_pairs s0 new) c) -> In x (conns s c).
+Proof.
+  intros I0 L c x Hx.
+  assert (I' : Inv W (undo_pairs s0 new)) by now apply undo_pairs_Inv.
+  pose proof (undo_pairs_sub new s0 c x I0 Hx) as H0.
+  destruct (L c x H0) as [?|[Hn|Hn]]; auto; exfalso.
+  - now apply (undo_pairs_removes new s0 c x I0 Hn).
+  - apply (inv_sym _ _ I') in Hx. now apply (undo_pairs_removes new s0 x c I0 Hn).
+Qed.
+
+Lemma cc_targets_logged s fh my ts s0 new s1 new1 raised :
+  Inv W s0 -> logged s s0 new -> cc_targets W fh my ts s0 new = (s1, new1, raised) ->
+  if raised then forall c x, In x (conns s1 c) -> In x (conns s c)
+  else Inv W s1 /\ logged s s1 new1.
+Proof.
+  revert s0 new; induction ts as [|t r IH]; intros s0 new I0 L H; simpl in H.
+  - inversion H; subst. auto.
+  - destruct my as [c0|].
+    + destruct (connect1 W s0 c0 t) as [s' [|e]] eqn:E.
+      * assert (I1 : Inv W s') by (pose proof (connect1_Inv W s0 c0 t I0) as X; now rewrite E in X).
+        apply (IH s' (new ++ [(c0, t)])); auto.
+        intros c x Hx. destruct (connect1_ok_conns W s0 c0 t s' I0 E c x Hx) as [H0|[[-> ->]|[-> ->]]].
+        -- exact (logged_more s s0 new _ L c x H0).
+        -- right. left. apply in_or_app. right. now left.
+        -- right. right. apply in_or_app. right. now left.
+      * apply connect1_err in E. subst s'. destruct fh.
+        -- inversion H; subst. now apply undo_logged.
+        -- now apply (IH s0 new).
+    + destruct fh.
+      * inversion H; subst. now apply undo_logged.
+      * now apply (IH s0 new).
+Qed.
+
+Lemma cc_channels_logged s fh n chs s0 new s1 new1 raised :
+  Inv W s0 -> logged s s0 new -> cc_channels W fh n chs s0 new = (s1, new1, raised) ->
+  if raised then forall c x, In x (conns s1 c) -> In x (conns s c)
+  else Inv W s1 /\ logged s s1 new1.
+Proof.
+  revert s0 new; induction chs as [|ch r IH]; intros s0 new I0 L H; simpl in H.
+  - inversion H; subst. auto.
+  - destruct (cc_targets W fh (my_chan W n ch) (conns s0 ch) s0 new) as [[s2 new2] raised2] eqn:E.
+    pose proof (cc_targets_logged s fh _ _ s0 new s2 new2 raised2 I0 L E) as X.
+    destruct raised2.
+    + inversion H; subst. exact X.
+    + destruct X as [I2 L2]. now apply (IH s2 new2).
+Qed.
+
+Theorem failed_copy_io_adds_nothing n m cfh vfh vfail s s' e :
+  Inv W s -> copy_io W n m cfh vfh vfail s = (s', Err e) ->
+  forall c x, In x (conns s' c) -> In x (conns s c).
+Proof.
+  intros I. unfold copy_io, copy_connections_io.
+  destruct (cc_channels W cfh n (all_chans W m) s []) as [[s1 new] raised] eqn:E.
+  assert (L : logged s s []) by (intros c x Hx; now left).
+  pose proof (cc_channels_logged s cfh n _ s [] s1 new raised I L E) as X.
+  destruct raised.
+  - inversion 1; subst. exact X.
+  - destruct X as [I1 L1]. destruct (vfh && vfail); [|discriminate].
+    inversion 1; subst. now apply undo_logged.
+Qed.
+
+End CopyIO.
+
+(* at the level of the ops: a failed copy_connections / copy_io / replace_child adds nothing *)
+Theorem failed_copy_op_adds_nothing W st o st' e :
+  Inv W (cn st) ->
+  match o with OCopyConns _ _ | OCopyIO _ _ _ _ _ | OReplace _ _ _ => True | _ => False end ->
+  step W st o = (st', Err e) ->
+  forall c x, In x (conns (cn st') c) -> In x (conns (cn st) c).
+Proof.
+  intros I Ho H. destruct o; try contradiction; simpl in H.
+  - unfold lift in H. destruct (copy_conns W (cn st) a o) as [s1 r] eqn:E. simpl in H.
+    inversion H; subst. simpl. now apply (failed_copy_adds_nothing W (cn st) a o s1 e).
+  - unfold lift in H. destruct (copy_io W n m cfh vfh vfail (cn st)) as [s1 r] eqn:E. simpl in H.
+    inversion H; subst. simpl. now apply (failed_copy_io_adds_nothing W n m cfh vfh vfail (cn st) s1 e).
+  - unfold replace_child in H.
+    destruct (negb (optnat_eqb (parent st n) (Some w))); [inversion H; subst; auto|].
+    destruct (negb (optnat_eqb (parent st m) None)); [inversion H; subst; auto|].
+    destruct (connected W (cn st) m); [inversion H; subst; auto|].
+    destruct (copy_io W m n true false false (cn st)) as [s1 [|e1]] eqn:E; [discriminate|].
+    inversion H; subst. simpl. now apply (failed_copy_io_adds_nothing W m n true false false (cn st) s1 e).
+Qed.
+
 (* ---- the statements of Props/C12.v ------------------------------------------------------ *)
 Definition good (W : world) (s : cstore) : Prop :=
   (forall a b, In b (conns s a) <-> In a (conns s b)) /\
@@ -838,7 +953,9 @@ Lemma reachable_removed_unreferenced W par kids lab ops o st' n :
   step W (exec W (init_state W par kids lab) ops) o = (st', Ok) -> unreferenced W (cn st') n.
 Proof. apply removed_unreferenced, reachable_Inv. Qed.
 
-Lemma reachable_failed_copy W par kids lab ops a o s' e :
-  let s := cn (exec W (init_state W par kids lab) ops) in
-  copy_conns W s a o = (s', Err e) -> forall c x, In x (conns s' c) -> In x (conns s c).
-Proof. intros s. apply failed_copy_adds_nothing, reachable_Inv. Qed.
+Lemma reachable_failed_copy W par kids lab ops o st' e :
+  let st := exec W (init_state W par kids lab) ops in
+  match o with OCopyConns _ _ | OCopyIO _ _ _ _ _ | OReplace _ _ _ => True | _ => False end ->
+  step W st o = (st', Err e) ->
+  forall c x, In x (conns (cn st') c) -> In x (conns (cn st) c).
+Proof. intros st. apply failed_copy_op_adds_nothing, reachable_Inv. Qed.
